@@ -60,6 +60,57 @@ def spec_push(d):
 def hx(b):
     return b.hex() if b else '-'
 
+# documented normalisation of the helpers' text arguments (encoding.normalize_var): str -> ISO-8859-1 when every character
+# fits, else UTF-8; a text that neither codec can encode (lone surrogate) is refused.  Written from the documentation.
+def spec_norm(text):
+    if all(ord(ch) < 256 for ch in text):
+        return bytes(ord(ch) for ch in text)
+    if any(0xd800 <= ord(ch) <= 0xdfff for ch in text):
+        return None
+    out = bytearray()
+    for ch in text:
+        cp = ord(ch)
+        if cp < 0x80:
+            out.append(cp)
+        elif cp < 0x800:
+            out += bytes([0xc0 | cp >> 6, 0x80 | cp & 0x3f])
+        elif cp < 0x10000:
+            out += bytes([0xe0 | cp >> 12, 0x80 | (cp >> 6) & 0x3f, 0x80 | cp & 0x3f])
+        else:
+            out += bytes([0xf0 | cp >> 18, 0x80 | (cp >> 12) & 0x3f, 0x80 | (cp >> 6) & 0x3f, 0x80 | cp & 0x3f])
+    return bytes(out)
+
+
+def read_cs_strict(b):
+    """own CompactSize reader: (value, rest) for a canonical prefix, None otherwise"""
+    if not b:
+        return None
+    f = b[0]
+    if f < 253:
+        return f, b[1:]
+    w, lo = {253: (2, 253), 254: (4, 0x10000), 255: (8, 0x100000000)}[f]
+    if len(b) < 1 + w:
+        return None
+    v = int.from_bytes(b[1:1 + w], 'little')
+    return (v, b[1 + w:]) if v >= lo else None
+
+
+def txt_tok(text):
+    return hx(text.encode('utf-8', 'surrogatepass'))
+
+
+# forms a helper may refuse (not documented for it) but must never answer WRONGLY for; the other forms must be served
+MAY_REFUSE = {
+    'varstr_a': ('memoryview',),
+    'cs_enc_a': ('float', 'decstr', 'decimal', 'fraction'),
+    'cs_dec_a': ('bytearray', 'memoryview', 'hexstr'),
+    'data_pack_a': ('str', 'memoryview', 'hexstr'),
+    'encode_num_a': ('float', 'decstr', 'decimal', 'fraction'),
+    'decode_num_a': ('memoryview', 'hexstr'),
+    'serialize_a': ('hexstr', 'str', 'memoryview'),
+}
+
+
 
 def tok_of_cmds(cmds):
     return ','.join(('o%02x' % c) if isinstance(c, int) else 'd' + hx(c) for c in cmds) or '-'
@@ -193,6 +244,72 @@ def gen_cases(rng, tier):
     for n in list(range(0, 80)) + [252, 253, 254, 255, 256, 520, 65535, 65536] + ([70000] if big else []):
         for fill in (0, 0xab):
             cs.append(Case('varstr', 'varstr ' + hx(bytes([fill]) * n), meta=('varstr', bytes([fill]) * n)))
+    # --- argument forms of the helpers: text (ASCII / Latin-1 / beyond Latin-1) across the CompactSize form changes counted in
+    # BYTES and in CHARACTERS, buffers other than bytes, int-likes.  Oracle-side normalisation is spec_norm.
+    texts = ['', 'a', 'abc', '\x00', '\x00\x00', '\x7f', '\x80', '\xe9', '\xff', 'caf\xe9', '\u0142', '\u20ac', '\U0001f600',
+             'Satoshi \u4e2d\u672c\u806a', '\xe9\u20ac', 'a\u0100', '\u00ff\u0100', '\ud800', 'a\udfffb']
+    for ch, w in (('a', 1), ('\xe9', 1), ('\u0142', 2), ('\u20ac', 3), ('\U0001f600', 4)):
+        ns = {1, 2, 75, 76, 200, 252, 253, 254, 255, 256, 65535, 65536}       # characters
+        for bl in (252, 253, 254, 255, 256, 65534, 65535, 65536, 65537, 65538):   # bytes
+            ns.update([bl // w, bl // w + 1])
+        if not big:
+            ns = {n for n in ns if n < 300} | set(rng.sample(sorted(n for n in ns if n >= 300), 3))
+        for n in sorted(ns):
+            texts.append(ch * n)
+    for tail in ('\u20ac', '\u0142', '\U0001f600', '\xe9\u0142'):
+        tw = len(spec_norm('a' + tail)) - 1
+        for bl in (252, 253, 254, 65535, 65536):
+            if bl > 300 and not big and rng.random() < 0.5:
+                continue
+            for pad in ('a', '\xe9'):                   # Latin-1 characters widen to 2 bytes once the text goes to UTF-8
+                pw = len(spec_norm(pad + '\u20ac')) - 3
+                k = (bl - tw) // pw
+                texts.append(pad * k + tail)
+                texts.append(tail + pad * (k + 1))
+        for nc in (252, 253):
+            texts.append('a' * (nc - len(tail)) + tail)
+    for _ in range(400 if big else 60):
+        n = rng.choice([rng.randrange(0, 40), rng.randrange(80, 130), rng.randrange(240, 270)])
+        pool = rng.choice(['ab\xe9\xff', 'a\u0142\u20ac', '\xe9\u20ac\U0001f600z', 'abc', '\x00a\u0142'])
+        texts.append(''.join(rng.choice(pool) for _ in range(n)))
+    seen_t = set()
+    for tx in texts:
+        if tx in seen_t:
+            continue
+        seen_t.add(tx)
+        p = spec_norm(tx)
+        cs.append(Case('varstr_text', 'varstr_a str ' + txt_tok(tx), meta=('varstr_a', 'str', p)))
+        if len(tx) < 600:
+            cs.append(Case('data_pack_text', 'data_pack_a str ' + txt_tok(tx), meta=('data_pack_a', 'str', p)))
+    for n in list(range(0, 6)) + [75, 76, 252, 253, 255, 256, 520] + ([65535, 65536] if big else [65535 + rng.randrange(2)]):
+        d = bytes(rng.randrange(1, 256) for _ in range(n))
+        for form in ('bytearray', 'memoryview'):
+            cs.append(Case('varstr_buffer', 'varstr_a %s %s' % (form, hx(d)), meta=('varstr_a', form, d)))
+            cs.append(Case('data_pack_buffer', 'data_pack_a %s %s' % (form, hx(d)), meta=('data_pack_a', form, d)))
+        if n:
+            cs.append(Case('data_pack_buffer', 'data_pack_a hexstr ' + hx(d), meta=('data_pack_a', 'hexstr', d)))
+    nums = [0, 1, 2, 75, 76, 127, 128, 252, 253, 254, 255, 256, 65535, 65536, 65537, 0xffffffff, 0x100000000, (1 << 53) + 1,
+            (1 << 64) - 1, 1 << 64, -1]
+    nums += [rng.getrandbits(rng.randrange(1, 65)) for _ in range(200 if big else 30)]
+    for n in nums:
+        for form in ('intsub', 'float', 'decstr', 'decimal', 'fraction') + (('bool',) if n in (0, 1) else ()):
+            cs.append(Case('cs_enc_form', 'cs_enc_a %s %d' % (form, n), meta=('cs_enc_a', form, n)))
+        e = spec_cs(n)
+        if e is not None:
+            tail = bytes(rng.randrange(256) for _ in range(rng.randrange(0, 3)))
+            for form in ('list', 'bytearray', 'memoryview', 'hexstr'):
+                cs.append(Case('cs_dec_form', 'cs_dec_a %s %s' % (form, hx(e + tail)), meta=('cs_dec_a', form, n, len(e))))
+    for z in [0, 1, -1, 127, 128, -128, 255, 256, 32767, 32768, -32768, (1 << 31) - 1, 1 << 31, -(1 << 31), (1 << 53) + 1] + \
+            [rng.getrandbits(rng.randrange(1, 66)) * rng.choice([1, -1]) for _ in range(200 if big else 30)]:
+        for form in ('intsub', 'float', 'decstr', 'decimal', 'fraction') + (('bool',) if z in (0, 1) else ()):
+            cs.append(Case('encode_num_form', 'encode_num_a %s %d' % (form, z), meta=('encode_num_a', form, z)))
+        if z:
+            for form in ('bytearray', 'memoryview', 'hexstr'):
+                cs.append(Case('decode_num_form', 'decode_num_a %s %s' % (form, hx(spec_num(z))), meta=('decode_num_a', form, z)))
+    for cmds in ([b'ab'], [0x76, 0xa9, b'\x11' * 20, 0x88, 0xac], [0x6a, b'\x42' * 75], [0x6a, b'\x42' * 76], [b'\x07' * 255, 0x75],
+                 [b'\x07' * 256, 0x51, b'\x09' * 520], [0x00, b'\x33' * 32]):
+        for form in ('bytearray', 'memoryview', 'hexstr'):
+            cs.append(Case('serialize_form', 'serialize_a %s %s' % (form, tok_of_cmds(cmds)), meta=('serialize_a', form, cmds)))
     # --- script numbers
     zs = set(range(-(1 << (16 if big else 12)), (1 << (16 if big else 12)) + 1))
     for k in (7, 8, 15, 16, 23, 24, 31, 32, 39, 40, 63, 64):
@@ -270,7 +387,28 @@ def gen_cases(rng, tier):
 
 
 def model_req(c):
+    """the model takes bytes / integers: an argument-form request is put to it in normalised form"""
+    m = c.meta
+    if m and m[0] in MAY_REFUSE:
+        k = m[0]
+        if k in ('varstr_a', 'data_pack_a'):
+            return 'cs_enc -1' if m[2] is None else '%s %s' % (k[:-2], hx(m[2]))     # refused text: the model's ERR
+        if k in ('cs_enc_a', 'encode_num_a'):
+            return '%s %d' % (k[:-2], m[2])
+        if k == 'cs_dec_a':
+            return 'cs_dec ' + c.req.split(' ')[2]
+        if k == 'decode_num_a':
+            return 'decode_num ' + c.req.split(' ')[2]
+        if k == 'serialize_a':
+            return 'serialize ' + c.req.split(' ')[2]
     return c.req.replace('parse hex ', 'parse len ')
+
+
+def same(c, io, mo):
+    m = c.meta
+    if m and m[0] in MAY_REFUSE and m[1] in MAY_REFUSE[m[0]] and io == 'ERR':
+        return True           # a refusal of a form the helper is not documented for: nothing to compare
+    return io == mo
 
 
 def is_trivial(c, out):
@@ -285,6 +423,52 @@ def prop_check(c, out):
     if m is None:
         return None
     k = m[0]
+    if k in MAY_REFUSE:
+        form = m[1]
+        if out == 'ERR' and form in MAY_REFUSE[k]:
+            return None
+        if k == 'varstr_a':
+            p = m[2]
+            if p is None:
+                return None if out == 'ERR' else 'varstr of a text no codec can encode answers %s…' % out[:30]
+            if p == b'\x00':
+                return None     # encoding.varstr special case, recorded under C06 (single_zero_byte_item)
+            if out == 'ERR':
+                return 'varstr(%s of %d payload bytes) is refused' % (form, len(p))
+            raw = b'' if out == '-' else bytes.fromhex(out)
+            r = read_cs_strict(raw)
+            if r is None:
+                return 'varstr(%s): result %s… does not start with a canonical CompactSize' % (form, out[:20])
+            if r[0] != len(r[1]):
+                return 'varstr(%s): CompactSize prefix says %d bytes but %d payload bytes follow (%s…)' % (form, r[0], len(r[1]), out[:20])
+            if r[1] != p:
+                return 'varstr(%s): payload written differs from the normalised argument (%d vs %d bytes)' % (form, len(r[1]), len(p))
+            return None
+        if k == 'data_pack_a':
+            p = m[2]
+            e = None if p is None else spec_push(p)
+            exp = 'ERR' if e is None else hx(e)
+            return None if out == exp else 'data_pack(%s of %d bytes) = %s…, shortest push is %s…' % (form, len(p or b''), out[:12], exp[:12])
+        if k == 'cs_enc_a':
+            e = spec_cs(m[2])
+            if form in ('float',) and float(m[2]) != m[2]:
+                return None if out == 'ERR' else 'int_to_varbyteint(float(%d)) = %s: a value that is not the integer was encoded' % (m[2], out)
+            exp = 'ERR' if e is None else hx(e)
+            return None if out == exp else 'int_to_varbyteint(%s %d) = %s, protocol form is %s' % (form, m[2], out, exp)
+        if k == 'cs_dec_a':
+            exp = '%d %d' % (m[2], m[3])
+            return None if out == exp else 'varbyteint_to_int(%s of the canonical form of %d) gives %s' % (form, m[2], out)
+        if k == 'encode_num_a':
+            if form in ('float',) and float(m[2]) != m[2]:
+                return None if out == 'ERR' else 'encode_num(float(%d)) = %s: a value that is not the integer was encoded' % (m[2], out)
+            exp = hx(spec_num(m[2]))
+            return None if out == exp else 'encode_num(%s %d) = %s, CScriptNum::serialize gives %s' % (form, m[2], out, exp)
+        if k == 'decode_num_a':
+            return None if out == str(m[2]) else 'decode_num(%s of encode(%d)) = %s' % (form, m[2], out)
+        if k == 'serialize_a':
+            e = spec_ser(m[2])
+            exp = 'ERR' if e is None else hx(e)
+            return None if out == exp else 'Script(%s items).serialize() = %s…, expected %s…' % (form, out[:40], exp[:40])
     if k == 'cs_enc':
         e = spec_cs(m[1])
         exp = 'ERR' if e is None else hx(e)
